@@ -62,7 +62,26 @@ def ev(e, env, enums=None):
         key = ir.show(e)
         if key in env:
             return env[key]
+        # an element of a constant array whose values the caller supplied (env["@arrays"][qualified name] = [ints])
+        b = ir.unwrap_all_casts(e.get("base"))
+        arrs = env.get("@arrays") or {}
+        if isinstance(b, dict) and b.get("k") == "Ref" and (b.get("qn") or b.get("n")) in arrs:
+            vals = arrs[b.get("qn") or b.get("n")]
+            i = ev(unwrap(e["idx"]), env, enums)
+            if 0 <= i < len(vals):
+                return vals[i]
+            raise Unknown("element %d of a %d-element constant array" % (i, len(vals)))
         raise Unknown("element %s" % key)
+    if k == "Call" and (e.get("callee") or {}).get("builtin") and len(e.get("args", [])) == 1:
+        nm = ir.callee_name(e) or ""
+        bits = 64 if nm.endswith("ll") or nm.endswith("l") else 32
+        if nm.startswith("__builtin_clz") or nm.startswith("__builtin_ctz") or nm.startswith("__builtin_popcount"):
+            v = ev(unwrap(e["args"][0]), env, enums) & ((1 << bits) - 1)
+            if nm.startswith("__builtin_popcount"):
+                return bin(v).count("1")
+            if v == 0:
+                raise Unknown("%s(0) is undefined" % nm)
+            return bits - v.bit_length() if nm.startswith("__builtin_clz") else (v & -v).bit_length() - 1
     if k == "Cast":
         v = ev(e["e"], env, enums)
         return wrap(v, e.get("t"), enums)
